@@ -384,6 +384,11 @@ def project_raw(path):
             if n == 'std::time::Instant::now':
                 add('NOW', ev, res=ev.val)
                 continue
+            if n in ('std::cmp::PartialEq::eq', 'std::cmp::PartialEq::ne') and len(a) == 2 and all(
+                    isinstance(x, tuple) and x and x[0] == 'ref' and len(x) > 2 and x[1][0] == 'local' and x[2] is not None for x in a):
+                # `a == b` on two references goes through `impl PartialEq<&B> for &A`, which takes `&&A, &&B` and forwards to
+                # `A::eq(*a, *b)`: the comparison the rules know, one reference level down
+                a = tuple(x[2] for x in a)
             add('CALL', ev, callee=n, args=a, res=ev.val)
             continue
         if k == 'br':
